@@ -477,7 +477,7 @@ def canonical_result(run, fi, sp, env, kind=None):
     kind = kind or sp.result
 
     def mk(suffix, sort):
-        return F(base + suffix, *sig, sort)(*args)
+        return F('%s%s:%s' % (base, suffix, kind), *sig, sort)(*args)
     RArr = z3.ArraySort(Arm, Real)
     if kind == 'arm':
         return ArmV(mk('', Arm))
